@@ -72,9 +72,13 @@ type ConsumableChange struct {
 
 func (m *Model) PullConsumable(ctx context.Context, name string, opts ...resource.ReadOption) <-chan ConsumableChange {
 	send := make(chan ConsumableChange)
+	// subscribe before returning: a removal that happens right after this call returns must not be missed
+	// (the goroutine below may not have run by then); when ctx is cancelled, or the consumable is deleted, then the
+	// resource will close recv for us
+	recv := m.consumables.PullID(ctx, name, opts...)
 	go func() {
 		defer close(send)
-		for change := range m.consumables.PullID(ctx, name, opts...) {
+		for change := range recv {
 			select {
 			case <-ctx.Done():
 				return
@@ -166,9 +170,13 @@ type StockChange struct {
 // The returned channel will be closed if ctx is Done or the stock record identified by consumable is deleted.
 func (m *Model) PullStock(ctx context.Context, consumable string, opts ...resource.ReadOption) <-chan StockChange {
 	send := make(chan StockChange)
+	// subscribe before returning: a removal that happens right after this call returns must not be missed
+	// (the goroutine below may not have run by then); when ctx is cancelled, or the stock record is deleted, then the
+	// resource will close recv for us
+	recv := m.inventory.PullID(ctx, consumable, opts...)
 	go func() {
 		defer close(send)
-		for change := range m.inventory.PullID(ctx, consumable, opts...) {
+		for change := range recv {
 			select {
 			case <-ctx.Done():
 				return
